@@ -1,7 +1,10 @@
 import OH.Proofs.HintDatedSafe
 /-
-Dated ranges: non-vacuity of `datedHintSafe` on real shapes, and two refutations of the selector
-level statement outside of it (concrete evaluation of the model, `decide +kernel`).
+Dated ranges: non-vacuity of `datedHintSafe` on real shapes — and the two former refutations of the
+selector-level statement (bounds shifted by a year or more, which left the fixed search windows
+`y-1 … y+1` / `y-2 … y+10` around the evaluated day's year): with the windows centred on the year of
+`d - day offset` both witnesses are inside `datedHintSafe` and the hint is sound on them (concrete
+evaluation of the model, `decide +kernel`, and instances of the theorem).
 -/
 namespace OH.Model
 open OH.Model.Cal
@@ -26,17 +29,29 @@ example : datedHintSafe (.fixed none 1 1) ⟨.next 6, 0⟩ (.fixed none 1 1) ⟨
 example : datedHintSafe (.fixed none 5 1) ⟨.prev 0, 0⟩ (.fixed none 5 1) ⟨.none, 3⟩ = true := by decide
 /-- `Dec 25 +Su-Dec 31`, `Nov 01 +Su +7 days-Dec 24 -Fr` -/
 example : datedHintSafe (.fixed none 12 25) ⟨.next 6, 0⟩ (.fixed none 12 31) off0 = true := by decide
-example : datedHintSafe (.fixed none 12 26) ⟨.next 6, 0⟩ (.fixed none 12 31) off0 = false := by decide
+example : datedHintSafe (.fixed none 12 26) ⟨.next 6, 0⟩ (.fixed none 12 31) off0 = true := by decide
 example : datedHintSafe (.fixed none 11 1) ⟨.next 6, 7⟩ (.fixed none 12 24) ⟨.prev 4, 0⟩ = true := by decide
 /-- a start with a year: `2024 Mar 01-Jun 15`, `2024 Mar 01 +500 days-2027 easter`, `2024 Feb 29` -/
 example : datedHintSafe (.fixed (some 2024) 3 1) off0 (.fixed none 6 15) off0 = true := by decide
 example : datedHintSafe (.fixed (some 2024) 3 1) ⟨.none, 500⟩ (.easter (some 2027)) off0 = true := by decide
 example : datedHintSafe (.fixed (some 2024) 2 29) ⟨.next 1, 900⟩ (.fixed (some 2024) 2 29) ⟨.next 1, 900⟩ = true := by decide
-/-- outside: a bound whose shifted projection leaves its year -/
-example : datedHintSafe (.fixed none 1 1) ⟨.none, -7⟩ (.fixed none 12 25) off0 = false := by decide
-example : datedHintSafe (.fixed none 1 1) ⟨.none, -366⟩ (.fixed none 1 1) ⟨.none, -365⟩ = false := by decide
+/-- formerly outside: a bound whose shifted projection leaves its year, shifts of a year and more, occurrences
+longer than a year, offsets that differ by a year (`Jan 01 -7 days-Dec 25`, `Jan 01 -366 days-Jan 01 -365 days`,
+`Jan 01 -364 days-Dec 31 +370 days`, `Jan 01 +400 days-Jan 10 +770 days`, `Dec 28 +35 days-Dec 28 +405 days`,
+`Feb 29 -1000 days-Feb 29 +10 days`, `Jan 01 -Mo -100000 days-Dec 31 +Su +100000 days`) -/
+example : datedHintSafe (.fixed none 1 1) ⟨.none, -7⟩ (.fixed none 12 25) off0 = true := by decide
+example : datedHintSafe (.fixed none 1 1) ⟨.none, -366⟩ (.fixed none 1 1) ⟨.none, -365⟩ = true := by decide
+example : datedHintSafe (.fixed none 1 1) ⟨.none, -364⟩ (.fixed none 12 31) ⟨.none, 370⟩ = true := by decide
+example : datedHintSafe (.fixed none 1 1) ⟨.none, 400⟩ (.fixed none 1 10) ⟨.none, 770⟩ = true := by decide
+example : datedHintSafe (.fixed none 12 28) ⟨.none, 35⟩ (.fixed none 12 28) ⟨.none, 405⟩ = true := by decide
+example : datedHintSafe (.fixed none 2 29) ⟨.none, -1000⟩ (.fixed none 2 29) ⟨.none, 10⟩ = true := by decide
+example : datedHintSafe (.fixed none 1 1) ⟨.prev 0, -100000⟩ (.fixed none 12 31) ⟨.next 6, 100000⟩ = true := by decide
+/-- outside: day offsets beyond ±100 000 days on a yearless start; a yearless start with an end that carries a
+year (no documented meaning) -/
+example : datedHintSafe (.fixed none 1 1) ⟨.none, 100001⟩ (.fixed none 1 10) off0 = false := by decide
+example : datedHintSafe (.fixed none 10 15) off0 (.easter (some 2021)) off0 = false := by decide
 
-/-! ### refutations outside `datedHintSafe` -/
+/-! ### the former refutations outside `datedHintSafe`: now sound -/
 
 /-- a `HintOK` statement is refuted by a day inside the hint on which the filter differs -/
 theorem not_hintOK_of {f : Int → M Bool} {h : Int → M (Option Int)} {d d' x : Int} {b b' : Bool}
@@ -64,27 +79,48 @@ theorem of_isOkB {m : M Bool} {b : Bool} (h : isOkB m b = true) : m = .ok b := b
   · cases h
 
 /-- single-day path, `Jan 01 -366 days-Jan 01 -365 days` (shifted start before Jan 1 of the previous
-year): from 2018-12-31 (737059, filter false) the hint is 2019-01-02 (737061) but the filter is true
-on 2019-01-01 (737060) -/
+year; the occurrence of 2020 is 2018-12-31 … 2019-01-01).  With the years `y-1 … y+1` / `y-1 … y+10` around
+the day's year the filter was FALSE on 2018-12-31 (737059) and the hint from there 2019-01-02 (737061)
+although the filter was true on 2019-01-01 (737060): `¬ HintOK` was a theorem (`rrSD_not_hintOK`).  With the
+years around the year of `d - end offset` the filter is true on both days, as the specification says, and
+the hint (737061) is sound. -/
 def rrSD : MonthdayRange := .date (.fixed none 1 1) ⟨.none, -366⟩ (.fixed none 1 1) ⟨.none, -365⟩
 
-theorem rrSD_not_hintOK : ¬ HintOK rrSD.filter rrSD.hint 737059 := by
-  have e1 : rrSD.hint 737059 = .ok (some 737061) := of_isOkSome (by decide +kernel)
-  have e2 : rrSD.filter 737059 = .ok false := of_isOkB (by decide +kernel)
-  have e3 : rrSD.filter 737060 = .ok true := of_isOkB (by decide +kernel)
-  have e4 : (737060 : Int) < dateEnd := by decide +kernel
-  exact not_hintOK_of e1 (by omega) (by omega) e4 e2 e3 (by decide)
+theorem rrSD_values : rrSD.hint 737059 = .ok (some 737061) ∧ rrSD.filter 737059 = .ok true ∧
+    rrSD.filter 737060 = .ok true ∧ rrSD.filter 737061 = .ok false :=
+  ⟨of_isOkSome (by decide +kernel), of_isOkB (by decide +kernel), of_isOkB (by decide +kernel),
+    of_isOkB (by decide +kernel)⟩
 
-/-- general path (window of two years before, ten after), `Jan 01 -364 days-Dec 31 +370 days`
-(occurrences three years long): from 2018-01-06 (736700, filter false) the hint is 2019-01-02
-(737061) but the filter is true on 2019-01-01 (737060) -/
+theorem rrSD_hintOK (d : Int) (h1 : dateStart ≤ d) (h2 : d < dateEnd) : HintOK rrSD.filter rrSD.hint d :=
+  MonthdayRange.date_hintOK _ _ _ _ (by decide) (by decide) d h1 h2
+
+/-- general path, `Jan 01 -364 days-Dec 31 +370 days` (starts on Jan 2 of the year before, ends on Jan 5 two
+years later: each start is closed by the end of three years earlier, occurrences are Jan 2 … Jan 5).  With the
+window `y-2 … y+10` around the day's year the hint from 2018-01-06 (736700, filter false) was 2019-01-02
+(737061) although the filter was TRUE on 2019-01-01 (737060) (`rrGen_not_hintOK`).  Now the filter is false
+on 2019-01-01, as the specification says, and the same hint is sound. -/
 def rrGen : MonthdayRange := .date (.fixed none 1 1) ⟨.none, -364⟩ (.fixed none 12 31) ⟨.none, 370⟩
 
-theorem rrGen_not_hintOK : ¬ HintOK rrGen.filter rrGen.hint 736700 := by
-  have e1 : rrGen.hint 736700 = .ok (some 737061) := of_isOkSome (by decide +kernel)
-  have e2 : rrGen.filter 736700 = .ok false := of_isOkB (by decide +kernel)
-  have e3 : rrGen.filter 737060 = .ok true := of_isOkB (by decide +kernel)
-  have e4 : (737060 : Int) < dateEnd := by decide +kernel
-  exact not_hintOK_of e1 (by omega) (by omega) e4 e2 e3 (by decide)
+theorem rrGen_values : rrGen.hint 736700 = .ok (some 737061) ∧ rrGen.filter 736700 = .ok false ∧
+    rrGen.filter 737060 = .ok false ∧ rrGen.filter 737061 = .ok true :=
+  ⟨of_isOkSome (by decide +kernel), of_isOkB (by decide +kernel), of_isOkB (by decide +kernel),
+    of_isOkB (by decide +kernel)⟩
+
+theorem rrGen_hintOK (d : Int) (h1 : dateStart ≤ d) (h2 : d < dateEnd) : HintOK rrGen.filter rrGen.hint d :=
+  MonthdayRange.date_hintOK _ _ _ _ (by decide) (by decide) d h1 h2
+
+/-- the witness of the former open finding `dated-shift-over-a-year`, `Jan 01 +400 days-Jan 10 +770 days`:
+from 2019-02-20 (737110, closed) the hint was 2020-02-05 (737460) although day 737425 (2020-01-01) was
+open.  Now: 2019-02-20 is the day after the occurrence 2019-02-05 … 2019-02-19, the hint from there is
+2020-02-05 (737460, the next start), and every day in between is closed — 737425 included. -/
+def rrShift : MonthdayRange := .date (.fixed none 1 1) ⟨.none, 400⟩ (.fixed none 1 10) ⟨.none, 770⟩
+
+theorem rrShift_values : rrShift.hint 737110 = .ok (some 737460) ∧ rrShift.filter 737110 = .ok false ∧
+    rrShift.filter 737425 = .ok false ∧ rrShift.filter 737460 = .ok true :=
+  ⟨of_isOkSome (by decide +kernel), of_isOkB (by decide +kernel), of_isOkB (by decide +kernel),
+    of_isOkB (by decide +kernel)⟩
+
+theorem rrShift_hintOK (d : Int) (h1 : dateStart ≤ d) (h2 : d < dateEnd) : HintOK rrShift.filter rrShift.hint d :=
+  MonthdayRange.date_hintOK _ _ _ _ (by decide) (by decide) d h1 h2
 
 end OH.Model
